@@ -35,7 +35,8 @@ INTERNAL = ("invariant not satisfied", "assertion failed", "decreases not satisf
 
 
 def _norm(s):
-    return re.sub(r"\s+", "", s)
+    # whitespace and rustfmt's trailing comma of a multi-line parameter list carry no meaning
+    return re.sub(r",\)", ")", re.sub(r"\s+", "", s))
 
 
 def _match_brace(lines, start):
@@ -124,6 +125,7 @@ def _extract_block(block, unit_name, rewrites):
     sigsubs = []
     blocksubs = []
     subs = []
+    resubs = []
     inserts = []
     names = []
     i = 1
@@ -157,6 +159,11 @@ def _extract_block(block, unit_name, rewrites):
                 j += 1
             blocksubs.append((cnt, old_l, new_l))
             i = j
+        elif s.startswith("//@@ SUBRE"):
+            # regular-expression rewrite (same rule, whatever the index expressions are); count must match
+            cnt = int(s.split()[2])
+            parts = _ARG.findall(line)
+            resubs.append((cnt, parts[0], parts[1]))
         elif s.startswith("//@@ SUB"):
             cnt = int(s.split()[2])
             parts = _ARG.findall(line)
@@ -224,6 +231,12 @@ def _extract_block(block, unit_name, rewrites):
             raise Undecided("lost anchor: rewrite %r expected %d matches, found %d (in %s)" % (old, cnt, c, anchor[:50]))
         btxt = btxt.replace(old, new)
         rewrites.append("%s: %s => %s (x%d)" % (anchor[:40], old, new, cnt))
+    for cnt, rx, new in resubs:
+        c = len(re.findall(rx, btxt))
+        if c != cnt:
+            raise Undecided("lost anchor: regex rewrite %r expected %d matches, found %d (in %s)" % (rx, cnt, c, anchor[:50]))
+        btxt = re.sub(rx, new, btxt)
+        rewrites.append("%s: regex %s => %s (x%d)" % (anchor[:40], rx, new, cnt))
     blines = btxt.split("\n")
     for cnt, old_l, new_l in blocksubs:
         hits = [q for q in range(len(blines) - len(old_l) + 1)
@@ -234,7 +247,10 @@ def _extract_block(block, unit_name, rewrites):
             blines[q:q + len(old_l)] = new_l
         rewrites.append("%s: block %s ... => %s (x%d)" % (anchor[:40], old_l[0], " ".join(x.strip() for x in new_l)[:80], cnt))
     for kind, nth_i, target, text in inserts:
-        pos = [q for q, l in enumerate(blines) if l.strip() == target]
+        if target.startswith("re:"):
+            pos = [q for q, l in enumerate(blines) if re.fullmatch(target[3:], l.strip())]
+        else:
+            pos = [q for q, l in enumerate(blines) if l.strip() == target]
         if len(pos) < nth_i:
             raise Undecided("lost anchor: insertion point %r #%d not found in %s" % (target, nth_i, anchor[:50]))
         at = pos[nth_i - 1] + (1 if kind == "AFTER" else 0)
@@ -403,7 +419,12 @@ def _classify(unit, res, rewrites, extracted, text):
             item["verdict"] = "undecided"
             item["reason"] = "solver resource limit in %s" % fn
         else:
-            boundary = [e for e, _ in fe if any(e.startswith(b) for b in BOUNDARY)]
+            tlines = text.split("\n")
+            def _is_lemma_call(l):
+                # the precondition of a lemma invoked in inserted proof text is a proof step, not a contract of the code
+                return 0 < l <= len(tlines) and re.match(r"\s*(if [^{]*\{\s*)?lemma_\w+\(", tlines[l - 1]) is not None
+            boundary = [e for e, l in fe if any(e.startswith(b) for b in BOUNDARY)
+                        and not (e.startswith("precondition not satisfied") and _is_lemma_call(l))]
             item["failed_checks"] = [{"description": e, "function": fn, "file": unit["name"] + ".rs", "line": l, "category": "verus"} for e, l in fe[:8]]
             item["output"] = _errors_for(res["stderr"], [l for _, l in fe])
             if boundary:
